@@ -4,10 +4,12 @@ package props
 import (
 	"fmt"
 	"math/bits"
+	"reflect"
 	"strings"
 
 	sdk "github.com/cosmos/cosmos-sdk/types"
 	"github.com/cosmos/cosmos-sdk/x/authz"
+	"github.com/gogo/protobuf/proto"
 	"pgregory.net/rapid"
 
 	"verifharness/simnet"
@@ -237,7 +239,65 @@ func (g *G) wrapTx(msgs []sdk.Msg, note string, aminoOK bool) *world.TxStep {
 	for _, m := range msgs {
 		ts.Msgs = append(ts.Msgs, world.EncodeMsg(m))
 	}
+	if g.chance("tamper", g.bias("tamper", 3)) {
+		// an intermediary replaces the content of one message after the signers have signed
+		i := g.intn("tampered-msg", len(msgs))
+		if t2, what := g.tamper(msgs[i]); t2 != nil {
+			ts.SignedMsgs = ts.Msgs
+			ts.Msgs = append([]world.MsgJSON{}, ts.SignedMsgs...)
+			ts.Msgs[i] = world.EncodeMsg(t2)
+			ts.Note += " tampered-after-signing(" + what + ")"
+			if aminoOK && exec == 0 && g.chance("tamper-amino", 60) {
+				for k := range ts.Signers {
+					ts.Signers[k].Mode = simnet.ModeAmino
+				}
+			}
+		}
+	}
 	return ts
+}
+
+// tamper returns a copy of m with one field changed: an account address replaced by another
+// harness account's, or any structural edit.
+func (g *G) tamper(m sdk.Msg) (sdk.Msg, string) {
+	if g.chance("tamper-address", 60) {
+		o := reflect.New(reflect.TypeOf(m).Elem()).Interface().(sdk.Msg)
+		if err := proto.Unmarshal(protoOf(m), o); err == nil {
+			type fld struct {
+				v    reflect.Value
+				path string
+			}
+			var addrs []fld
+			var walk func(v reflect.Value, path string)
+			walk = func(v reflect.Value, path string) {
+				switch v.Kind() {
+				case reflect.Ptr, reflect.Interface:
+					if !v.IsNil() {
+						walk(v.Elem(), path)
+					}
+				case reflect.Struct:
+					for i := 0; i < v.NumField(); i++ {
+						if f := v.Type().Field(i); f.PkgPath == "" && !strings.HasPrefix(f.Name, "XXX_") {
+							walk(v.Field(i), path+"."+f.Name)
+						}
+					}
+				case reflect.String:
+					if v.CanSet() && g.W.AcctIndex(canonStr(v.String())) >= 0 {
+						addrs = append(addrs, fld{v, path})
+					}
+				}
+			}
+			walk(reflect.ValueOf(o), "")
+			if len(addrs) > 0 {
+				f := addrs[g.intn("tamper-field", len(addrs))]
+				cur := g.W.AcctIndex(canonStr(f.v.String()))
+				other := (cur + 1 + g.intn("tamper-other", len(g.W.Accts)-1)) % len(g.W.Accts)
+				f.v.SetString(g.bech(other))
+				return o, "address replaced at " + f.path
+			}
+		}
+	}
+	return structuralMutationOf(g.T, m)
 }
 
 // genAuthz draws a grant or revoke of a generic authorisation for a custom message type.
